@@ -74,7 +74,7 @@ def gen(rng, ctx):
         # larger acyclic circuits: too many variables for the exhaustive clause evaluation, decided by
         # bit-parallel simulation over the free signals and the bit-parallel DPLL on the clause list
         ni = rng.randint(3, 10 if big else 8)
-        cd = G.rand_circuit(rng, ni, rng.randint(15, 45 if big else 30), max_fanin=5, p_wide=0.25, p_const=0.2)
+        cd = G.rand_circuit(rng, ni, rng.randint(15, 45 if big else 30), max_fanin=5, p_wide=0.25, p_const=0.2, p_large=0.25)
         if rng.random() < 0.3:
             cd = G.add_blackboxes(rng, cd, 1, p_unconnected=0.0)
         nodes = [n for n, _, _ in cd["nodes"]]
@@ -87,7 +87,7 @@ def gen(rng, ctx):
     if rng.random() < 0.5:
         t = rng.choice(G.GATESN)
         force = (t, rng.choice([1, 2, 3, 3, 4, 5, 6]))
-    cd = G.rand_circuit(rng, ni, ng, max_fanin=6, force=force, p_wide=0.3, p_const=0.2)
+    cd = G.rand_circuit(rng, ni, ng, max_fanin=6, force=force, p_wide=0.3, p_const=0.2, p_large=0)  # all-node oracle: size bounded by maxn
     kind = "acyclic"
     if rng.random() < 0.2 and len(cd["nodes"]) <= maxn - 4:
         cd = G.add_blackboxes(rng, cd, 1, bbdefs=[{"name": "one", "inputs": ["p"], "outputs": ["o"]}, {"name": "ff", "inputs": ["d"], "outputs": ["q"]}], p_unconnected=0.0)
